@@ -46,7 +46,8 @@ class Check(RuntimeCheck):
                             evs += [scn.call(0, m, 0) for _ in range(pos)]
                             evs.append(scn.call(0, m, a))
                             evs.append(scn.call(0, m, 0))
-                            evs.append(scn.drop(0))
+                            # every fourth history ends through Termination::report: a partial-by-default method no clause mentions falls through to the real verdict, in strict and partial mocks alike
+                            evs.append(scn.report(0) if k % 4 == 3 else scn.drop(0))
                             out.append(scn.scenario(f"x{k}", evs))
                             k += 1
         return [('table', ''.join(out))]
